@@ -61,6 +61,8 @@ func SingleBucket(name string, fs afero.Fs, metaFs afero.Fs, opts ...SingleOptio
 		fs:        fs,
 		metaStore: newMetaStore(metaFs, modTimeFsCalc(fs)),
 	}
+	b.metaStore.objectFs = fs
+	b.metaStore.objectPath = func(bucket, object string) string { return object }
 	for _, opt := range opts {
 		if err := opt(b); err != nil {
 			return nil, err
